@@ -367,6 +367,12 @@ func (v *Val) build(inst int) interface{} {
 	case KIntPtr:
 		return &intCell
 	case KReflectValue:
+		if len(v.Kids[0].Kids)%2 == 0 && v.Kids[0].K != KNil {
+			// a reflect.Value of Kind Interface (the operand of fmt is then printed one level down: a pointer inside
+			// shows as an address, not as &{…})
+			var box interface{} = v.Kids[0].Build(inst)
+			return reflect.ValueOf(&box).Elem()
+		}
 		return reflect.ValueOf(v.Kids[0].Build(inst))
 	case KSafe:
 		// content under Safe() is public: both instantiations share it (the very same objects, addresses included)
